@@ -138,7 +138,7 @@ def moving_median(data, n, idxs_ds, idxs_us_main, strord=None, nodata=-9999.0, m
         if idxs.size > 0:
             a = data[idxs]
             if not nan:
-                a = np.where(a == nodata, np.nan, a).astype(a.dtype)
+                a = np.where(a == nodata, np.nan, a.astype(np.float64))
             data_out[idx0] = np.nanmedian(a)
     return data_out
 
